@@ -3,6 +3,7 @@ Lemmas behind C16: the meta encoder and decoder of `Compress.Meta.Codec` are
 mutually inverse; size and single-block facts.
 -/
 import Compress.Meta.Codec
+import Compress.Proofs.MetaWriter
 
 namespace Compress.Proofs.Meta
 open Compress Compress.Meta
@@ -16,12 +17,12 @@ theorem computeHuffLen_sound (zeros ones : Nat) :
       (let z := if r.2 then ones else zeros
        let o := if r.2 then zeros else ones
        2 ^ r.1 + (z + 8) ≤ 257 ∧ o + 8 ≤ 2 ^ r.1) ∧ (r.2 = true ↔ ones > zeros)) := by
-  sorry
+  exact computeHuffLen_sound_aux zeros ones
 
 /-- Every payload of up to 22 bytes has a code length (whatever its bit weight). -/
 theorem computeHuffLen_fit22 (zeros ones : Nat) (h : zeros + ones ≤ 8 * 22) :
     (computeHuffLen zeros ones).1 > 0 := by
-  sorry
+  exact computeHuffLen_fit22_aux zeros ones h
 
 /-- The 257 symbol bits: right length, first bit zero, last bit (EOB) one,
     exactly `2^h` ones. -/
@@ -31,7 +32,7 @@ theorem symbolBits_shape (buf : List UInt8) (h : Nat) (final invert : Bool)
     (ho : Bits.countOnes (Bits.ofBytes (if invert then buf.map (fun b => ~~~ b) else buf)) + 8 ≤ 2 ^ h) :
     let s := symbolBits buf h final invert
     s.length = 257 ∧ s.head? = some false ∧ s.getD 256 false = true ∧ Bits.countOnes s = 2 ^ h := by
-  sorry
+  exact symbolBits_shape_aux buf h final invert hlen hz ho
 
 /-- **Block round trip.** Whatever follows the block in the input, decoding the
     encoder's bits returns the payload, the final mode and exactly the block's
@@ -39,21 +40,21 @@ theorem symbolBits_shape (buf : List UInt8) (h : Nat) (final invert : Bool)
 theorem decodeBlock_encodeBlock (buf : List UInt8) (final : FinalMode) (bits rest : Bits)
     (h : encodeBlock buf final = some bits) :
     decodeBlock (bits ++ rest) = .ok { payload := buf, final := final, consumed := bits.length } := by
-  sorry
+  exact decodeBlock_encodeBlock_aux buf final bits rest h
 
 /-- Encoded blocks are whole bytes. -/
 theorem encodeBlock_aligned (buf : List UInt8) (final : FinalMode) (bits : Bits)
     (h : encodeBlock buf final = some bits) : bits.length % 8 = 0 := by
-  sorry
+  exact encodeBlock_aligned_aux buf final bits h
 
 /-- `Writer.Write` never fails to encode what it buffered. -/
 theorem writeBytes_total (payload : List UInt8) : ∃ s, writeBytes {} payload = some s := by
-  sorry
+  exact writeBytes_total_aux payload
 
 /-- A payload of up to 22 bytes is encoded as exactly one block. -/
 theorem encode_fit22 (payload : List UInt8) (final : FinalMode) (h : payload.length ≤ 22) :
     ∃ b, encode payload final = some [b] := by
-  sorry
+  exact encode_fit22_aux payload final h
 
 /-- **Stream round trip.** For every payload (any length) and final mode, the
     encoder succeeds and the decoder returns the payload, the mode, the number
@@ -62,6 +63,6 @@ theorem decode_encode (payload : List UInt8) (final : FinalMode) :
     ∃ blocks, encode payload final = some blocks ∧
       decode blocks.flatten = .ok { payload := payload, final := final, blocks := blocks.length,
                                     consumed := blocks.flatten.length } := by
-  sorry
+  exact decode_encode_aux payload final
 
 end Compress.Proofs.Meta
